@@ -158,6 +158,17 @@ def extra_cases():
         probe = dict(k="in", cfg=icfg("zz", handler=handler, run_missing=True), body=inner, args=[{"lit": pv.i(1)}], kwargs=[])
         Pp = opdef(dict(k="try", c=seq([probe], {"k": "ret", "e": {"var": 0}}), h={"k": "ret", "e": {"lit": pv.s("caught")}}))
         cases.append((P, [Pp, Pp], dict(kind="in", alias="zz", expect=("val", pv.i(10), True))))
+    # (e) the replayed program reaches intercepted functions from a worker thread (started and joined by the operation):
+    # answered from the recording there too, no body runs, outputs are captured
+    for handler in ("none", "wrap"):
+        P = opdef(seq([in_site("a0", pv.i(1), pv.i(10), handler=handler), out_site("o0", pv.i(5), pv.i(20))],
+                      {"k": "ret", "e": {"lit": pv.s("done")}}))
+        worker = seq([in_site("a0", pv.i(1), pv.i(99), handler=handler), out_site("o0", pv.i(5), pv.i(98))],
+                     {"k": "ret", "e": {"lit": pv.none()}})
+        body = {"k": "spawn", "c": worker,
+                "next": dict(k="try", c=seq([in_site("a0", pv.i(1), pv.i(97), handler=handler)], {"k": "ret", "e": {"var": 0}}),
+                             h={"k": "ret", "e": {"lit": pv.s("caught")}})}
+        cases.append((P, [opdef(body), opdef(rd.clean(body))], dict(kind="in", alias="a0", expect=("val", pv.i(10), False))))
     # (d) one decorated function (alias with a resolved parameter, fallback aliases given as a list) called for several
     # parameter values: a call whose key is missing is NOT answered with what an earlier call of the same function got
     for fbl, vm, want in (([], {"kind": "none"}, ("exn", "KeyMissing", False)), (["q1"], {"kind": "lit", "v": pv.i(0)}, ("val", pv.i(0), False)),
